@@ -13,7 +13,7 @@ VARIABLES l,        \* next line to judge
           snap      \* [line, aux] of the last Commit (or InitChain): what a restart must resume from
 vars == <<l, aux, bad, snap>>
 
-InitAux == [props |-> <<>>, nextProp |-> 1, ever |-> [wrk |-> <<>>, bcn |-> <<>>], sh |-> <<>>]
+InitAux == [props |-> <<>>, nextProp |-> 1, ever |-> [wrk |-> <<>>, bcn |-> <<>>], sh |-> <<>>, ghost |-> {}]
 
 ------------------------------------------------------------------------------
 (* L2: view comparison between the expected and the observed post-state *)
